@@ -444,6 +444,8 @@ static std::vector<std::string> dests_for(size_t src) {
 		size_t best = others[0];
 		for (auto i : others) if (g_all[i].bytes.size() >= g_all[best].bytes.size()) best = i;
 		d.push_back("file:" + g_all[best].name);
+		// and every API-built model of the version (tiny; they exist for the relationships no sample file has)
+		for (auto i : others) if (i != best && g_all[i].name.compare(0, 4, "api:") == 0) d.push_back("file:" + g_all[i].name);
 	}
 	return d;
 }
